@@ -168,6 +168,13 @@ func workerLoop(t *testing.T, cfg Config, progress *atomic.Int64, emit func(reco
 		if c == nil {
 			continue
 		}
+		if cfg.Race && c.Scen != "race" {
+			// race-directed phase of another property's check: this property's workload,
+			// free-running under the race detector; only the statements it names are kept
+			if c = ToRace(c); c == nil {
+				continue
+			}
+		}
 		c.Seed = seed
 		// one case in three also explores the automatically inserted yields (every channel,
 		// WaitGroup, mutex and select operation of the engine), if the build is instrumented
@@ -204,6 +211,12 @@ func workerLoop(t *testing.T, cfg Config, progress *atomic.Int64, emit func(reco
 		}
 		if rr.Skipped != "" {
 			st.Skipped[rr.Skipped]++
+		}
+		for _, site := range rr.RaceSites {
+			if !seenKeys["site|"+site] {
+				seenKeys["site|"+site] = true
+				emit(record{Type: "race-site", Msg: site})
+			}
 		}
 		hashes[rr.Hash] = true
 		if rr.Nontrivial {
